@@ -598,7 +598,8 @@ impl ChainSession {
             nonce[8..16].copy_from_slice(&da.to_be_bytes());
             nonce[24..].copy_from_slice(&c.to_be_bytes());
             let nonce = Nonce::new(nonce);
-            match rng.gen_range(0..10) {
+            let roll = if opt.forced_burners && chance(rng, 50) { 5 } else { rng.gen_range(0..10) };
+            match roll {
                 0..=3 => {
                     let data = if chance(rng, 50) {
                         vec![]
@@ -643,7 +644,7 @@ impl ChainSession {
                         let cap = self.params.tx_params().max_gas_per_tx().min(self.params.block_gas_limit());
                         let share = *pick(rng, &[30u64, 50, 70]);
                         let gas = (cap / 100 * share).min(cap.saturating_sub(150_000));
-                        let iters = if chance(rng, 70) { 262_143 } else { (gas / 12).min(262_143) as u32 };
+                        let iters = if chance(rng, 70) { 262_143 } else { (gas / 6_500) as u32 };
                         let p = programs::assemble_script(
                             &[Step::Burn { iters }],
                             Terminal::Ret,
@@ -788,6 +789,8 @@ impl ChainSession {
         // ---- DA height
         let want_adv = if opt.max_da_advance == 0 {
             0
+        } else if opt.forced_burners {
+            *pick(rng, &[0u64, 1, 1, 2, 2, 3, 4, 5]).min(&opt.max_da_advance)
         } else {
             *pick(rng, &[0u64, 0, 1, 1, 2, 3, 4, 5]).min(&opt.max_da_advance)
         };
@@ -847,7 +850,15 @@ impl ChainSession {
                 plan.txs.push(p);
             }
         }
-        if chance(rng, 30) && !opt.plain_only && !opt.force_upgrade {
+        if opt.burners_permille >= 500 && chance(rng, 60) {
+            // gas burners first: they meet whatever gas budget the executor computed before the first L2 tx
+            plan.txs.sort_by_key(|p| {
+                !p.script
+                    .as_ref()
+                    .map(|s| s.steps.iter().any(|st| matches!(st, Step::Burn { .. })))
+                    .unwrap_or(false)
+            });
+        } else if chance(rng, 30) && !opt.plain_only && !opt.force_upgrade {
             plan.txs.shuffle(rng);
         }
         plan
@@ -1745,9 +1756,9 @@ impl ChainSession {
         }
         self.add_changes(rng, &mut d, Twist::None);
         let cap = self.params.tx_params().max_gas_per_tx();
-        let share = *pick(rng, &[20u64, 45, 70, 100]);
+        let share = *pick(rng, &[20u64, 45, 70, 70, 100, 100]);
         let gas_limit = (cap / 100 * share).min(cap.saturating_sub(120_000)).max(10_000);
-        let iters = if chance(rng, 70) { 262_143 } else { (gas_limit / 12).min(262_143) as u32 };
+        let iters = if chance(rng, 70) { 262_143 } else { (gas_limit / 6_500) as u32 };
         let steps = vec![Step::Burn { iters }];
         let prog = programs::assemble_script(&steps, Terminal::Ret, script_data_base(&self.params), 0);
         let tx = Transaction::script(
